@@ -329,6 +329,80 @@ fn socket_scenario(ty: Ty, cuts: Vec<usize>) -> Verdict {
     e3::finish(v)
 }
 
+/// Bulk behind the handshake: greeting + READY (optionally with a large extra property) + four 3 kB messages, all
+/// written by the peer without waiting for anything, delivered with the given cuts. The read buffer grows while the
+/// handshake is still being decoded; everything behind READY must still come out of recv.
+fn bulk_stream(ty: Ty, ready_pad: usize) -> (Vec<u8>, usize, usize, Vec<String>) {
+    let id = b"P1".to_vec();
+    let mut props: Vec<(Vec<u8>, Vec<u8>)> = vec![(b"Socket-Type".to_vec(), ty.peer_type().as_bytes().to_vec()), (b"Identity".to_vec(), id.clone())];
+    if ready_pad > 0 {
+        props.push((b"X-Pad".to_vec(), rc::pattern(ready_pad, 77, 0)));
+    }
+    let mut s = rc::default_greeting();
+    let ready_start = s.len();
+    s.extend(rc::encode_command(b"READY", &props));
+    let ready_end = s.len();
+    let mut want = Vec::new();
+    for i in 0..4usize {
+        let m: Vec<Vec<u8>> = match ty {
+            Ty::XPub => {
+                let mut f = vec![1u8];
+                f.extend(rc::pattern(3000, i as u64, 0));
+                vec![f]
+            }
+            _ => vec![format!("b{}", i).into_bytes(), rc::pattern(3000, i as u64, 0)],
+        };
+        s.extend(rc::encode_message(&m));
+        let exp: Vec<Vec<u8>> = if ty == Ty::Router {
+            let mut e = vec![id.clone()];
+            e.extend(m.clone());
+            e
+        } else {
+            m
+        };
+        want.push(format!("Ok{}", rc::show_frames(&exp)));
+    }
+    (s, ready_start, ready_end, want)
+}
+
+fn bulk_scenario(ty: Ty, ready_pad: usize, cuts: Vec<usize>) -> Verdict {
+    world::reset(world::WorldCfg { nested_env: false, yields: false, select: false, policy: 0, coop: false });
+    let (stream, _, _, want) = bulk_stream(ty, ready_pad);
+    let c = e3::raw_conn("p");
+    c.send_cut(&stream, &cuts);
+    let results = std::rc::Rc::new(std::cell::RefCell::new(Vec::<String>::new()));
+    let res2 = results.clone();
+    let n = want.len();
+    world::spawn_app("app", async move {
+        let mut sock = AnySocket::new(ty, None);
+        sock.subscribe_all().await;
+        if let Err(e) = e3::attach_raw(sock.backend(), c).await {
+            res2.borrow_mut().push(format!("attach Err({})", e));
+            return;
+        }
+        for _ in 0..n {
+            match world::until_idle(sock.recv()).await {
+                Some(r) => res2.borrow_mut().push(e3::show_result(&r)),
+                None => break,
+            }
+        }
+        world::wait_cond("never").await;
+        drop(sock);
+    });
+    let end = world::run(e3::HORIZON * 4);
+    let mut v = Verdict::default();
+    v.truncated = end != world::RunEnd::Quiescent;
+    let got = results.borrow().clone();
+    let what = format!("{} socket, peer writes greeting + READY{} + four 3 kB messages without waiting ({} bytes), delivered with cuts {:?}", ty.name(), if ready_pad > 0 { format!(" (with a {}-byte extra property)", ready_pad) } else { String::new() }, stream.len(), cuts);
+    if !world::panics().is_empty() {
+        v.violate("panic", format!("{}: {}", what, world::panics().join("; ")));
+    } else if got != want {
+        v.violate("bulk-behind-handshake/recv-differs", format!("{}: recv returned {} of {} messages ({:?})", what, got.iter().filter(|g| want.contains(g)).count(), want.len(), got.iter().map(|g| g.chars().take(24).collect::<String>()).collect::<Vec<_>>()));
+    }
+    v.outcome_hash = rc::fnv(format!("{}", got.len()).as_bytes());
+    e3::finish(v)
+}
+
 fn parse_cuts(p: &serde_json::Value) -> Vec<usize> {
     p.as_array().map(|a| a.iter().map(|x| x.as_u64().unwrap() as usize).collect()).unwrap_or_default()
 }
@@ -386,6 +460,10 @@ pub fn run(tier: Tier, replay: Option<String>) -> i32 {
             return crate::replay::replay_e3(&v, |p| {
                 let ty = Ty::from_name(p["type"].as_str()?)?;
                 let cuts = parse_cuts(&p["cuts"]);
+                if p["scenario"] == "bulk" {
+                    let pad = p["ready_pad"].as_u64().unwrap_or(0) as usize;
+                    return Some(std::sync::Arc::new(move || bulk_scenario(ty, pad, cuts.clone())) as zvcore::explore::Scenario);
+                }
                 Some(std::sync::Arc::new(move || socket_scenario(ty, cuts.clone())) as zvcore::explore::Scenario)
             });
         }
@@ -521,6 +599,34 @@ pub fn run(tier: Tier, replay: Option<String>) -> i32 {
             ));
         }
     }
+    // bulk behind the handshake
+    for ty in [Ty::Pull, Ty::Router, Ty::Dealer, Ty::Sub, Ty::XPub] {
+        for pad in tier.pick(&[0usize, 1000, 9000, 20_000][..], &[0usize, 300, 1000, 8000, 9000, 12_000, 20_000, 40_000, 70_000][..]) {
+            let (s, rs, re, _) = bulk_stream(ty, *pad);
+            let mut cutsets: Vec<Vec<usize>> = vec![vec![]];
+            // every single cut inside the greeting's last bytes and inside READY's header, around its end, and (for
+            // the unpadded READY) at every position inside it
+            let mut pos: Vec<usize> = (56..=rs + 12).collect();
+            if *pad == 0 {
+                pos.extend(rs..=re + 2);
+            } else {
+                pos.extend([rs + 100, re - 100, re - 1, re, re + 1, re + 2, re + 3000]);
+                pos.extend((rs + 4096..re).step_by(4096));
+            }
+            pos.sort();
+            pos.dedup();
+            for a in pos.iter().filter(|a| **a > 0 && **a < s.len()) {
+                cutsets.push(vec![*a]);
+            }
+            // READY cut once and the rest arriving in 8 KiB pieces
+            cutsets.push(std::iter::once(rs + 5).chain((rs + 5 + 8192..s.len()).step_by(8192)).collect());
+            for cs in cutsets {
+                let cs2 = cs.clone();
+                let pad2 = *pad;
+                jobs.push(e3::job(format!("C02/bulk/{}/pad{}/{:?}", ty.name(), pad, if cs.len() > 3 { vec![cs.len()] } else { cs.clone() }), json!({"scenario":"bulk","type":ty.name(),"ready_pad":pad,"cuts":cs}), 0, 10, move || bulk_scenario(ty, pad2, cs2.clone())));
+            }
+        }
+    }
     e3::run_jobs_into(&mut ck, jobs, false);
     let st = nodes.load(Ordering::Relaxed);
     let tr = edges.load(Ordering::Relaxed);
@@ -533,7 +639,7 @@ pub fn run(tier: Tier, replay: Option<String>) -> i32 {
         st + tr + ck.coverage.get("e3_executions").and_then(|v| v.as_u64()).unwrap_or(0),
     );
     ck.cov("exhaustive", true);
-    ck.cov("explanation", format!("states = (bytes fed, reader state) nodes summed over {} streams (greeting + up to {} items from a 12-item menu); transitions = edges p->q, each executed on the real FramedRead over a harness reader and required to land in the unique state recorded for q; cut set = every byte position for streams up to {} bytes, else every position within 12 bytes of an item/frame/length-field boundary plus 4096k+-1. Each stream additionally: reference decode of every prefix, and EOF at every cut. Long-stream family (count-based, not a partition enumeration): greeting + READY + 40 / 300 / 1100 (thorough 5000) messages fed whole and in 19 fixed strides (1 B .. 20 kB). Socket level: 7 socket types, all single cuts{} and byte-at-a-time delivery of greeting+READY+2 messages through real attach+recv.", specs.len(), tier.pick(3, 4), dense_limit, tier.pick(", all pairs of cuts past byte 56", ", all pairs of cuts")));
+    ck.cov("explanation", format!("states = (bytes fed, reader state) nodes summed over {} streams (greeting + up to {} items from a 12-item menu); transitions = edges p->q, each executed on the real FramedRead over a harness reader and required to land in the unique state recorded for q; cut set = every byte position for streams up to {} bytes, else every position within 12 bytes of an item/frame/length-field boundary plus 4096k+-1. Each stream additionally: reference decode of every prefix, and EOF at every cut. Long-stream family (count-based, not a partition enumeration): greeting + READY + 40 / 300 / 1100 (thorough 5000) messages fed whole and in 19 fixed strides (1 B .. 20 kB). Socket level: 7 socket types, all single cuts{} and byte-at-a-time delivery of greeting+READY+2 messages through real attach+recv; plus 'bulk behind the handshake' (the peer writes greeting + READY, optionally padded with an extra property of up to 20 kB (thorough 70 kB), + four 3 kB messages without waiting; one cut at every position of the greeting's tail and of READY, or READY cut once and the rest in 8 KiB pieces) for 5 socket types.", specs.len(), tier.pick(3, 4), dense_limit, tier.pick(", all pairs of cuts past byte 56", ", all pairs of cuts")));
     ck.sample(json!({"stream": build(&StreamSpec{items: vec![1,5]}, seed).2, "cut_positions": cut_set(build(&StreamSpec{items: vec![1,5]}, seed).0.len(), &[], 400).len()}));
     ck.assume("the reader's future behaviour is a function of (decoder Debug state, unread buffer bytes) and the remaining input — true of FramedRead2 + ZmqCodec, whose only fields these are");
     ck.assume("reads larger than 8 KiB are split by FramedRead2's own 8 KiB scratch buffer, as in production");
